@@ -42,9 +42,7 @@ def _returned_names(fn_node):
     return out
 
 
-def run(R):
-    R.extra["explanation"] = EXPLANATION
-    ro = Roles(R)
+def selection_rules(R, ro, P="C05"):
     sel = ro.select_method()
     cfg = cfg_of(sel)
     loop = _loop_over_batches(R, ro, sel)
@@ -66,7 +64,7 @@ def run(R):
         site = R.site(sel, st.ast)
         # the stored value must be the loop variable itself
         val = st.ast.value if isinstance(st.ast, ast.Assign) else None
-        R.check(isinstance(val, ast.Name) and val.id == lv, "C05.SELECT-VALUE", "%s:%s" % (sel.qualname, q.stmt_key(st.ast)),
+        R.check(isinstance(val, ast.Name) and val.id == lv, P + ".SELECT-VALUE", "%s:%s" % (sel.qualname, q.stmt_key(st.ast)),
                 site, "candidate is assigned the batch under examination",
                 "candidate %r is assigned something other than the examined batch %r" % (cand, lv))
         # SELECT-GUARD a: non-empty
@@ -93,12 +91,12 @@ def run(R):
             return None
 
         p = kit.path_avoiding_guard(cfg, [st], nonempty, N, sources=iter_starts)
-        R.check(p is None, "C05.SELECT-GUARD", "%s:nonempty:%s" % (sel.qualname, q.stmt_key(st.ast)), site,
+        R.check(p is None, P + ".SELECT-GUARD", "%s:nonempty:%s" % (sel.qualname, q.stmt_key(st.ast)), site,
                 "every path from the loop head to the candidate assignment crosses the `%s.items` non-empty edge" % lv,
                 "an empty batch can become the flush candidate (no non-empty guard on some path)",
                 cfg.fmt_path(p) if p else None)
         p = kit.path_avoiding_guard(cfg, [st], unflushed, N, sources=iter_starts)
-        R.check(p is None, "C05.SELECT-GUARD", "%s:unflushed:%s" % (sel.qualname, q.stmt_key(st.ast)), site,
+        R.check(p is None, P + ".SELECT-GUARD", "%s:unflushed:%s" % (sel.qualname, q.stmt_key(st.ast)), site,
                 "every path to the candidate assignment crosses the not-flushed edge of %s.is_flushed()" % lv,
                 "an already flushed/cancelled batch can become the flush candidate",
                 cfg.fmt_path(p) if p else None)
@@ -135,7 +133,7 @@ def run(R):
             return None
 
         p = kit.path_avoiding_guard(cfg, [st], argmax, N, sources=iter_starts)
-        R.check(p is None, "C05.ARGMAX", "%s:%s" % (sel.qualname, q.stmt_key(st.ast)), site,
+        R.check(p is None, P + ".ARGMAX", "%s:%s" % (sel.qualname, q.stmt_key(st.ast)), site,
                 "candidate replaced only when it is the first one or its get_priority() is greater",
                 "the candidate can be replaced by a batch whose priority is not greater (comparison direction / missing comparison)",
                 cfg.fmt_path(p) if p else None)
@@ -147,7 +145,7 @@ def run(R):
                 if p is None:
                     # ... and whenever the candidate changes, so does the remembered priority
                     pass
-                R.check(p is None, "C05.ARGMAX-PAIR", "%s:%s" % (sel.qualname, q.stmt_key(n.ast)), R.site(sel, n.ast),
+                R.check(p is None, P + ".ARGMAX-PAIR", "%s:%s" % (sel.qualname, q.stmt_key(n.ast)), R.site(sel, n.ast),
                         "the remembered best priority is updated only when the candidate is replaced",
                         "the remembered priority is overwritten although the candidate is kept: later batches are compared with the wrong priority",
                         cfg.fmt_path(p) if p else None)
@@ -164,13 +162,20 @@ def run(R):
                 back = cfg.find_path(iter_starts, [st], N, cut_nodes=best_store_nodes)
                 if back is None:
                     p = None
-        R.check(p is None, "C05.ARGMAX-PAIR", "%s:records:%s" % (sel.qualname, q.stmt_key(st.ast)), site,
+        R.check(p is None, P + ".ARGMAX-PAIR", "%s:records:%s" % (sel.qualname, q.stmt_key(st.ast)), site,
                 "replacing the candidate records its priority for the following comparisons",
                 "the candidate can be replaced without recording its priority",
                 cfg.fmt_path(p) if p else None)
-    R.require_min("C05.SELECT-GUARD", 2)
-    R.require_min("C05.ARGMAX", 1)
+    R.require_min(P + ".SELECT-GUARD", 2)
+    R.require_min(P + ".ARGMAX", 1)
+    return sel
 
+
+
+def run(R):
+    R.extra["explanation"] = EXPLANATION
+    ro = Roles(R)
+    sel = selection_rules(R, ro, "C05")
     # REMOVE-BEFORE-FLUSH --------------------------------------------------------------
     fo = ro.flush_one_method()
     fcfg = cfg_of(fo)
